@@ -114,6 +114,27 @@ impl Engine for ProgEngine {
 /// Programs as evidence samples: long keys abbreviated.
 pub fn compact_program(p: &Program) -> serde_json::Value {
     let mut v = serde_json::to_value(p).unwrap();
+    // long raw metadata abbreviated
+    fn shorten(v: &mut serde_json::Value) {
+        match v {
+            serde_json::Value::Object(m) => {
+                for (k, x) in m.iter_mut() {
+                    if k == "raw_metadata" {
+                        if let Some(a) = x.as_array() {
+                            if a.len() > 64 {
+                                *x = serde_json::Value::String(format!("({} bytes)", a.len()));
+                                continue;
+                            }
+                        }
+                    }
+                    shorten(x);
+                }
+            }
+            serde_json::Value::Array(a) => a.iter_mut().for_each(shorten),
+            _ => {}
+        }
+    }
+    shorten(&mut v);
     if let Some(keys) = v.get_mut("keys").and_then(|k| k.as_array_mut()) {
         for k in keys.iter_mut() {
             if let Some(s) = k.as_str() {
